@@ -3,7 +3,9 @@
 // G  generated dispatch tables (builder operation sequences incl. ill-formed ones, dispatches with 1..33 parameters, local types
 //    that refer to each other in every order of declaration incl. recursion, local aliases with varying
 //    definitions, blocks incl. block types that accept undef without OptionalBlock) and argument lists;
-//    histories of 2-4 functions in one context some of which fail to resolve; px.New / px.Call("new") / CoerceTo on every core type x argument lists.
+//    histories of 2-4 functions in one context some of which fail to resolve; histories `calls, read-only accessors of the
+//    resolved function (Dispatchers, Parameters, Signature, Types, Size, ..., Resolve once more), the same calls again` (twice);
+//    px.New / px.Call("new") / CoerceTo on every core type x argument lists.
 // D  the property evaluated directly on the implementation: the body that ran is the one of the first
 //    dispatch whose declaration the call satisfies (declarative matching, px.IsInstance per parameter),
 //    every body re-checks its own declaration, no match => reported argument error; the result of new is
@@ -65,6 +67,7 @@ func main() {
 		runHistories(cfg, res, e, rng)
 		runNewFamily(cfg, res, e, rng)
 		runInstFamily(cfg, res, e, rng)
+		runInspect(cfg, res, e, rng)
 	})
 	res.Write(cfg)
 }
@@ -462,7 +465,7 @@ func runInstFamily(cfg *lib.Config, res *lib.Result, e *env, rng *lib.Rng) {
 // ---- replay -----------------------------------------------------------------------------------------------------
 
 func replay(cfg *lib.Config, res *lib.Result, e *env) {
-	df, nf, inf, hf := dispatchFile(e), newFile(), instFile(), historyFile(e)
+	df, nf, inf, hf, isf := dispatchFile(e), newFile(), instFile(), historyFile(e), inspectFile(e)
 	for _, in := range lib.ReplayInputs(cfg.Replay) {
 		var k struct {
 			Kind string `json:"kind"`
@@ -492,6 +495,37 @@ func replay(cfg *lib.Config, res *lib.Result, e *env) {
 				res.Evaluations++
 			}
 			df.Add(fc.gallina(run.obs), in)
+		case "inspect":
+			var fc FnCase
+			lib.Remarshal(in, &fc)
+			fmt.Println("function:", fc.text())
+			run := e.checkFn(res, &fc)
+			fmt.Printf("  builder: %s %s\n", run.obs.Build, run.obs.Msg)
+			if run.obs.Build != "ok" {
+				res.Evaluations++
+				continue
+			}
+			fmt.Println("  accessors asked between the calls:", accsText(fc.Inspect))
+			for r, ro := range run.rounds {
+				for j, a := range fc.Inspect {
+					fmt.Printf("    round %d  %s -> %s\n", r+1, a, ro.Acc[j])
+				}
+			}
+			for i, call := range fc.Calls {
+				res.Evaluations++
+				fmt.Printf("  call %s\n     first dispatch whose declaration is satisfied: %d\n     implementation, before the accessors: %s\n",
+					call.text(), e.expected(run, call), run.obs.Calls[i])
+				if run.bodyViol[i] != "" {
+					fmt.Println("     " + run.bodyViol[i])
+				}
+				for r, ro := range run.rounds {
+					fmt.Printf("     implementation, after the accessors were asked %d time(s): %s\n", r+1, ro.Calls[i])
+					if ro.Viol[i] != "" {
+						fmt.Println("     " + ro.Viol[i])
+					}
+				}
+			}
+			isf.Add(fc.inspGallina(run), in)
 		case "history":
 			var h History
 			lib.Remarshal(in, &h)
@@ -543,5 +577,5 @@ func replay(cfg *lib.Config, res *lib.Result, e *env) {
 		fmt.Println("the implementation satisfies the property on this input")
 	}
 	res.CorrFiles = append(res.CorrFiles, df.WriteTo(cfg.Out, "cases_dispatch_exhaustive"), nf.WriteTo(cfg.Out, "cases_new"),
-		inf.WriteTo(cfg.Out, "cases_inst"), hf.WriteTo(cfg.Out, "cases_history"))
+		inf.WriteTo(cfg.Out, "cases_inst"), hf.WriteTo(cfg.Out, "cases_history"), isf.WriteTo(cfg.Out, "cases_inspect"))
 }
